@@ -162,7 +162,7 @@ func (P *Program) Check(opt CheckOpts) int {
 	sel := map[*Obligation]bool{}
 	for _, r := range results {
 		for _, o := range r.Obligations {
-			if hasStr(oblProps(o, r.Contract), prop) {
+			if !o.GroupHead && hasStr(oblProps(o, r.Contract), prop) {
 				sel[o] = true
 			}
 		}
